@@ -2,7 +2,7 @@
    Property statements only; every proof is `exact <lemma from Proofs/C01_proofs.v>`.
    P : prims are the library primitives (cipher contexts, HMAC, AEAD, compression); their laws
    prims_ok P cinv zinv are explicit premises (DESIGN.md section 5). *)
-From PV Require Import Bytes C01 C01_proofs.
+From PV Require Import Bytes C01 C01_gen C01_proofs.
 Open Scope Z_scope.
 
 (* one message, every framing mode (cleartext, classic, encrypt-then-MAC, AEAD), compression on or off:
@@ -152,6 +152,73 @@ Theorem C01_write_all :
     (exists t, written ++ out = fst (write_all out iters evs written) ++ t).
 Proof. exact write_all_exact. Qed.
 Print Assumptions C01_write_all.
+
+(* ---- source facts: coq/Gen/C01_gen.v is regenerated from paramiko/common.py, packet.py and transport.py on
+   every run by gen/c01.py (fail closed); these theorems re-prove that what the code says is what the model
+   and the premises of the theorems above assume ---------------------------------------------------------- *)
+
+(* every offered cipher has block size >= 8 (sync's premise), AEAD IVs are fixed part + counter of
+   _inc_iv_counter, every MAC is transmitted with 0 < size <= digest size (so mac_tag has length size),
+   a compression-free setting exists, AEAD MAC size is 16 (the tag length of prims_ok / mode_sync), and a
+   fresh Packetizer is the model's init_state (block size 8, MAC size 0, seqno 0) *)
+Theorem C01_source_tables :
+  forallb (fun c => let '(bs, ks, iv, aead) := c in
+             (8 <=? bs) && (if aead : bool then iv =? g1_iv_fixed + g1_iv_ctr else iv =? bs)) g1_ciphers = true /\
+  forallb (fun m => let '(sz, dg, etm) := m in (0 <? sz) && (sz <=? dg)) g1_macs = true /\
+  existsb (fun c => negb (fst c)) g1_compressions = true /\
+  g1_aead_mac_size = 16 /\
+  (g1_init_bs_out, g1_init_bs_in, g1_init_msz_out, g1_init_msz_in, g1_init_seq_out, g1_init_seq_in) = (8, 8, 0, 0, 0, 0).
+Proof. exact source_tables. Qed.
+Print Assumptions C01_source_tables.
+
+(* `(seq + 1) & xffffffff` is the model's (seq + 1) mod 2^32 and the rollover test is the model's, both directions *)
+Theorem C01_source_seq :
+  forall q kex,
+    g1_seq_next_out q = (q + 1) mod 2 ^ 32 /\ g1_seq_next_in q = (q + 1) mod 2 ^ 32 /\
+    g1_rollover_out (g1_seq_next_out q) kex = rollover q kex /\
+    g1_rollover_in (g1_seq_next_in q) kex = rollover q kex.
+Proof. exact source_seq. Qed.
+Print Assumptions C01_source_seq.
+
+(* _inc_iv_counter: fixed prefix length, counter width and step are those of the model's inc_iv *)
+Theorem C01_source_inc_iv :
+  forall iv,
+    inc_iv iv =
+    (let c := be_decode (skipn (Z.to_nat g1_iv_fixed) iv) + g1_iv_step in
+     if c <? 2 ^ (8 * g1_iv_ctr) then Ok (firstn (Z.to_nat g1_iv_fixed) iv ++ be_encode (Z.to_nat g1_iv_ctr) c)
+     else Raise (LibExc 2)).
+Proof. exact source_inc_iv. Qed.
+Print Assumptions C01_source_inc_iv.
+
+Theorem C01_source_read_sizes :
+  forall ps bs msz lo padding,
+    g1_etm_remaining ps bs = ps - bs + 4 /\ g1_aead_remaining ps bs msz = ps - bs + 4 + msz /\
+    g1_classic_read ps msz lo = ps + msz - lo /\ g1_block_check ps lo bs = negb ((ps - lo) mod bs =? 0) /\
+    g1_payload_start = 1 /\ g1_payload_end ps padding = ps - padding.
+Proof. exact source_read_sizes. Qed.
+Print Assumptions C01_source_read_sizes.
+
+(* read_all's loop test and need-rekey guard, as translated from the source, are read_all_t's *)
+Theorem C01_source_read_all :
+  forall n out ck nr rest,
+    read_all_t n out ck nr (STimeout :: rest) =
+    if negb (g1_read_continue n) then RAok out (STimeout :: rest)
+    else if g1_rekey_cond ck (zlen out) nr then RArekey rest
+    else read_all_t n out ck nr rest.
+Proof. exact source_read_all. Qed.
+Print Assumptions C01_source_read_all.
+
+(* write_all's zero-return rule, failure test, completion test and retry value are the model's *)
+Theorem C01_source_write_all :
+  forall k iters o out' rest written,
+    write_all (o :: out') iters (WSend k :: rest) written =
+    (if g1_write_zero_abort k iters || g1_write_fail k then (written, false)
+     else if g1_write_done k (zlen (o :: out')) then (written ++ o :: out', true)
+     else let n := Z.to_nat (Z.min k (zlen (o :: out'))) in
+          write_all (skipn n (o :: out')) (iters + 1) rest (written ++ firstn n (o :: out'))) /\
+    g1_write_retry_n = 0 /\ g1_write_continue (zlen (o :: out')) = true.
+Proof. exact source_write_all. Qed.
+Print Assumptions C01_source_write_all.
 
 (* non-vacuity: the laws are satisfiable, and a concrete keyed pair is in sync in each mode *)
 Example C01_laws_satisfiable : prims_ok idP (fun _ _ _ => True) (fun _ _ => True).
